@@ -25,6 +25,10 @@ os.makedirs(dst, exist_ok=True)
 shutil.copy(src + "/patch.diff", dst)
 for f in glob.glob(src + "/" + pat) + glob.glob(src + "/README.md"):
     shutil.copy(f, dst)
+for f in glob.glob(src + "/*/" + pat):
+    sub = os.path.join(dst, os.path.basename(os.path.dirname(f)))
+    os.makedirs(sub, exist_ok=True)
+    shutil.copy(f, sub)
 meta = dict(id=sid, property=prop, breaks=prop, demo_package_dir=pkgdir, needs_to_manifest=needs,
     confirmed=dict(date=str(datetime.date.today()), how="tools/seed_verify.sh: scratch worktree of /repo HEAD; patch applied; go build ./...; go test ./... in main module and internal/{integration,backcompat,grpccompat,twirpcompat}: pass; demo test(s) fail with the patch and pass after reverting it",
                    verify_output=[l for l in ver.splitlines() if l.startswith(("existing suite", "demo with", "demo without", "RESULT"))]),
